@@ -112,13 +112,14 @@ def exceptions : List Exception := [
   ⟨Key.ncmpio_write_numrecs_2, .nonEFILE, "F6"⟩, ⟨Key.ncmpio_write_numrecs_3, .nonEFILE, "F6"⟩,
   -- F3: req_commit keeps one `err` for the write phase and the read phase
   ⟨Key.req_commit__wait_getput_1, .anyClass, "F3"⟩, ⟨Key.req_commit__ncmpio_intra_node_aggregation_nreqs_1, .anyClass, "F3"⟩,
-  -- F19: fillerup_aggregate tests mpireturn only after the following MPI_File_set_view overwrote it
+  -- F19 (finding C11.N1): fillerup_aggregate tests mpireturn only after the following MPI_File_set_view overwrote it
   ⟨Key.fillerup_aggregate_1, .anyClass, "F19"⟩, ⟨Key.fillerup_aggregate_2, .anyClass, "F19"⟩,
-  -- F20: ncmpio_redef discards the status of ncmpio_end_indep_data (numrecs write when leaving independent mode)
+  -- F20 (finding C11.N2): ncmpio_redef discards the status of ncmpio_end_indep_data (numrecs write when leaving independent mode)
   ⟨Key.ncmpio_redef__ncmpio_end_indep_data_1, .anyClass, "F20"⟩,
-  -- F21: hdr_get_NC_var: `if (err != NC_NOERR) break;` in the dimid loop, then `err` is assigned again
+  -- F21 (status discarded, but NOT a property violation at run time: the parser then fails with a format error,
+  --      see findings/C11.txt): hdr_get_NC_var: `if (err != NC_NOERR) break;` in the dimid loop, then `err` is assigned again
   ⟨Key.hdr_get_NC_var__hdr_get_uint32_2, .anyClass, "F21"⟩, ⟨Key.hdr_get_NC_var__hdr_get_uint64_2, .anyClass, "F21"⟩,
-  -- F22: zero-length participation in the root's collective header / numrecs I/O: mpireturn never tested
+  -- F22 (finding C11.N4): zero-length participation in the root's collective header / numrecs I/O: mpireturn never tested
   ⟨Key.write_NC_3, .anyClass, "F22"⟩, ⟨Key.ncmpio_write_header_3, .anyClass, "F22"⟩,
   ⟨Key.ncmpio_write_numrecs_1, .anyClass, "F22"⟩, ⟨Key.hdr_fetch_3, .anyClass, "F22"⟩
 ]
@@ -214,6 +215,14 @@ theorem no_silent_drop_partial :
   intro s hs p hp c hc hex
   exact no_silent_drop_partial_all_codes s hs p hp (ncOf c.2) (errmap_total c hc) hex
 
+/-- THE SWITCH: as soon as the exception list is empty (every known defect repaired and its row
+    removed), the partial theorem IS the full statement.  After the repairs:
+    `theorem no_silent_drop : NoSilentDrop_Statement := no_silent_drop_of_no_exceptions rfl` -/
+theorem no_silent_drop_of_no_exceptions (h : exceptions = []) : NoSilentDrop_Statement := by
+  intro s hs p hp c hc r hr
+  have hex : excepted s p (ncOf c.2) = false := by simp [excepted, exceptedB, h]
+  exact no_silent_drop_partial s hs p hp c hc hex r hr
+
 /-- two representative codes: the generic one (NC_EFILE) and a specific one -/
 def witnessCodes : List Int := [NC_EFILE, ncOf Cls.MPI_ERR_NO_SPACE]
 
@@ -304,7 +313,8 @@ def obligations : List String := [
   "nothing_untranslatable", "no_unknown_pattern", "site_pattern_sound", "chain_pattern_sound",
   "paths_wellformed", "every_site_has_a_path", "keys_distinct",
   "unexcepted_cases_are_clean", "keeps_nonzero", "siteOK_nonzero", "runChains_nonzero", "clean_path_never_drops",
-  "no_silent_drop_partial_all_codes", "no_silent_drop_partial", "exceptions_are_real", "partial_nonvacuous",
+  "no_silent_drop_partial_all_codes", "no_silent_drop_partial", "no_silent_drop_of_no_exceptions",
+  "exceptions_are_real", "partial_nonvacuous",
   "F6_enddef_header_write_no_space", "F6_enddef_header_write_generic_ok", "F3_wait_write_then_read",
   "F19_fill_write_ignored",
   "no_silent_drop_counterexample", "commitStatus_matches_table", "commit_read_phase_propagates",
